@@ -15,6 +15,10 @@ CLAIMED.update({
     'C03': dict(engine='P', design='§8 C03', technique='bounded symbolic execution of en.apply_binary_rules + Unification on z3 against a reference reading of the CCG schemata, replay',
                 text='for every ordered pair of categories within the shape/length bounds, every result of the real English rule functions is justified by the schema its label names and the converse (identical matched parts) holds, on every feasible path'),
 })
+CLAIMED.update({
+    'C04': dict(engine='P', design='§8 C04', technique='bounded symbolic execution of ja.apply_binary_rules/apply_unary_rules + Unification on z3 against a reference reading of the Japanese schemata, replay',
+                text='for every ordered pair of categories with three-part features within the bounds every result of the real Japanese rule functions is justified by the schema its symbol names (head right, crossed composition keeps the secondary slash, variables instantiated from inputs), and unary steps carry the label the input shape demands, on every feasible path'),
+})
 REASONS = {}
 def main():
     checks = []
